@@ -32,7 +32,7 @@ def gen_case(rng, tier, op=None):
     spec["cols"].append({"name": "v", "kind": "float", "vals": [rng.choice([1.0, 2.0, 2.5, -1.0, 4.0, "nan"]) for _ in range(spec["n"])]})
     case = {"op": op or rng.choice(OPS), "frame": spec, "by": by}
     if case["op"] == "shorthand":
-        case["helper"] = rng.choice(["count", "first", "last", "sum", "min", "max", "mean", "nth1", "count_unique", "mode", "median", "any", "all"])
+        case["helper"] = rng.choice(["count", "first", "last", "sum", "min", "max", "mean", "nth1", "nth-1", "nth-2", "nth-3", "last", "count_unique", "mode", "median", "any", "all"])
     return case
 
 
@@ -69,6 +69,9 @@ def helper_pair(name):
         "first": (di.first("v"), lambda x: di.first(x.v)),
         "last": (di.last("v"), lambda x: di.last(x.v)),
         "nth1": (di.nth("v", 1), lambda x: di.nth(x.v, 1)),
+        "nth-1": (di.nth("v", -1), lambda x: di.nth(x.v, -1)),
+        "nth-2": (di.nth("v", -2), lambda x: di.nth(x.v, -2)),
+        "nth-3": (di.nth("v", -3), lambda x: di.nth(x.v, -3)),
         "sum": (di.sum("v"), lambda x: di.sum(x.v)),
         "min": (di.min("v"), lambda x: di.min(x.v)),
         "max": (di.max("v"), lambda x: di.max(x.v)),
@@ -79,6 +82,9 @@ def helper_pair(name):
         "any": (di.any("v"), lambda x: di.any(x.v)),
         "all": (di.all("v"), lambda x: di.all(x.v)),
     }[name]
+
+
+NTH_FAMILY = ("first", "last", "nth1", "nth-1", "nth-2", "nth-3")
 
 
 def grouped(df, by):
@@ -116,17 +122,26 @@ def impl(case):
             elif op == "split":
                 res["groups"] = [[int(i) for i in g] for g in df.split(*by)]
             elif op == "modify":
-                out = grouped(df, by).modify(own=lambda x: x._rid_ * 1, size=lambda x: x.nrow, lead=lambda x: int(x._rid_[0]) if x.nrow else -1)
-                rids, problem = framegen.rows_integrity(spec, out.unselect("own", "size", "lead"))
+                # `half`: the function's result type differs between groups (an int for one-row groups, floats
+                # otherwise): every row must still receive the value computed for it
+                out = grouped(df, by).modify(own=lambda x: x._rid_ * 1, size=lambda x: x.nrow, lead=lambda x: int(x._rid_[0]) if x.nrow else -1,
+                                             half=lambda x: (x._rid_ + 0.5) if x.nrow > 1 else (int(x._rid_[0]) if x.nrow else 0))
+                rids, problem = framegen.rows_integrity(spec, out.unselect("own", "size", "lead", "half"))
                 res.update({"rids": rids, "problem": problem, "own": [int(x) for x in out.own],
-                            "size": [int(x) for x in out["size"]], "lead": [int(x) for x in out.lead]})
+                            "size": [int(x) for x in out["size"]], "lead": [int(x) for x in out.lead],
+                            "half": [float(x) for x in out.half]})
             elif op == "count":
                 stat = df.count(*by)
                 res["n"] = [int(x) for x in stat.n]
                 res["keys_first"] = {nm: vecgen.canon_array(stat[nm]) for nm in by}
             elif op == "shorthand":
                 short, lam = helper_pair(case["helper"])
-                a = grouped(df, by).aggregate(y=short)
+                if case["helper"] in NTH_FAMILY:
+                    # these share one accelerated kernel (nth_apply_numba): compare with acceleration ON, as a user has it
+                    with patch("dataiter.USE_NUMBA", True):
+                        a = grouped(df, by).aggregate(y=short)
+                else:
+                    a = grouped(df, by).aggregate(y=short)
                 b = df.group_by(*by).aggregate(y=lam)
                 res["short"] = vecgen.canon_array(a.y)
                 res["lambda"] = vecgen.canon_array(b.y)
@@ -213,6 +228,8 @@ def judge(ctx, case, obs, mouts):
                         lead[i] = g[0]
                 if obs["own"] != list(range(n)) or obs["size"] != [size[i] for i in range(n)] or obs["lead"] != [lead[i] for i in range(n)]:
                     ctx.violation("oracle", "modify:misaligned", "group-wise results are not aligned with the original rows", case, obs)
+                elif obs.get("half") != [(i + 0.5) if size[i] > 1 else float(i) for i in range(n)]:
+                    ctx.violation("oracle", "modify:values-changed", "a row did not receive the value the function returned for it (results of different types across groups)", case, obs)
         if op == "shorthand":
             na = lambda x: None if x == "nan" else x
             a, b = [na(x) for x in obs["short"]], [na(x) for x in obs["lambda"]]
